@@ -342,38 +342,55 @@ def split_args(s):
 # ------------------------------------------------------------------------------------------------
 # solving: z3 (python API) + cvc5 (binary) on the same SMT-LIB text
 # ------------------------------------------------------------------------------------------------
+def run_bin(cmd, timeout_s):
+    t0 = time.time()
+    try:
+        out = subprocess.run(cmd, stdout=subprocess.PIPE, stderr=subprocess.STDOUT, text=True, timeout=timeout_s + 30).stdout
+    except subprocess.TimeoutExpired:
+        out = "timeout"
+    if "(error" in out:
+        r = "error"      # an (error line means the solver may have dropped an assertion: never trusted
+    elif re.search(r"^unsat", out, re.M):
+        r = "unsat"
+    elif re.search(r"^sat", out, re.M):
+        r = "sat"
+    else:
+        r = "unknown"
+    return r, round(time.time() - t0, 2)
+
+
 def decide(z3, formula, logdir, qname, timeout_s):
-    """formula = negated property. returns (status, model or None, times, solvers)"""
+    """formula = negated property.  The same SMT-LIB2 text goes to cvc5 and to the z3 4.8.12 binary; the z3 5.x Python API
+    is the third opinion and supplies the model when the answer is sat.  `unsat` is accepted only when cvc5 and at least
+    one z3 build agree and no solver says sat."""
     s = z3.Solver()
-    s.set("timeout", int(timeout_s * 1000))
     s.add(formula)
     smt2 = "(set-logic ALL)\n" + s.to_smt2()
     path = os.path.join(logdir, "engineB_%s.smt2" % qname)
     open(path, "w").write(smt2)
-    t0 = time.time()
-    r1 = s.check()
-    t1 = time.time() - t0
-    model = s.model() if r1 == z3.sat else None
-    t0 = time.time()
-    try:
-        p = subprocess.run(["cvc5", "--lang", "smt2", "--tlimit=%d" % int(timeout_s * 1000), path], stdout=subprocess.PIPE,
-                           stderr=subprocess.STDOUT, text=True, timeout=timeout_s + 30)
-        out2 = p.stdout
-    except subprocess.TimeoutExpired:
-        out2 = "timeout"
-    t2 = time.time() - t0
-    r2 = "error" if "(error" in out2 else ("unsat" if re.search(r"^unsat", out2, re.M) else ("sat" if re.search(r"^sat", out2, re.M) else "unknown"))
-    r1s = str(r1)
-    times = {"z3_s": round(t1, 2), "cvc5_s": round(t2, 2)}
-    if r1s == "unsat" and r2 == "unsat":
-        return "unsat", None, times, ["z3 %s" % z3.get_version_string(), "cvc5"]
-    if r1s == "sat" or r2 == "sat":
-        if r1s == "unsat" or r2 == "unsat":
-            return "disagree", model, times, []
-        return "sat", model, times, []
-    # one solver answered unsat, the other ran out of time: accept only with both -> inconclusive
-    if (r1s == "unsat" and r2 == "unknown") or (r2 == "unsat" and r1s == "unknown"):
-        return "unsat-one", None, times, ["z3" if r1s == "unsat" else "cvc5"]
+    r_cvc5, t_cvc5 = run_bin(["cvc5", "--lang", "smt2", "--tlimit=%d" % int(timeout_s * 1000), path], timeout_s)
+    r_z3old, t_z3old = run_bin(["/usr/bin/z3", "-T:%d" % int(timeout_s), path], timeout_s)
+    times = {"cvc5_s": t_cvc5, "z3_4.8.12_s": t_z3old}
+    answers = {"cvc5": r_cvc5, "z3-4.8.12": r_z3old}
+    model = None
+    if not (r_cvc5 == "unsat" and r_z3old == "unsat"):
+        s.set("timeout", int(min(timeout_s, 120) * 1000))
+        t0 = time.time()
+        r3 = str(s.check())
+        times["z3_%s_s" % z3.get_version_string()] = round(time.time() - t0, 2)
+        answers["z3-" + z3.get_version_string()] = r3
+        if r3 == "sat":
+            model = s.model()
+    vals = list(answers.values())
+    if "sat" in vals:
+        return ("disagree" if "unsat" in vals else "sat"), model, times, []
+    if "error" in vals:
+        return "unknown", None, times, []
+    z3_unsat = [k for k, v in answers.items() if k.startswith("z3") and v == "unsat"]
+    if r_cvc5 == "unsat" and z3_unsat:
+        return "unsat", None, times, ["cvc5", z3_unsat[0]]
+    if "unsat" in vals:
+        return "unsat-one", None, times, [k for k, v in answers.items() if v == "unsat"]
     return "unknown", None, times, []
 
 
@@ -513,16 +530,28 @@ def q_adler_combine(z3, funcs, exe, logdir):
     A2, B2 = z3.ZeroExt(32, a2 & 0xffff), z3.ZeroExt(32, z3.LShR(a2, 16))
     p = z3.BitVecVal(P, 64)
     pre = z3.And(z3.ULT(A1, p), z3.ULT(B1, p), z3.ULT(A2, p), z3.ULT(B2, p))
-    # RFC 1950: running B from A1 instead of 1 adds (A1 - 1) to each of the len2 partial sums and to the final A
-    rem = z3.URem(ln, p)
+    # `len2 % 65521` is the first thing the function computes and the only way len2 is used: abstract it to a fresh
+    # variable below 65521 (sound: every 64-bit len2 has such a remainder, and every remainder is attained)
+    rem_term = z3.URem(ln, p)
+    rem = z3.BitVec("rem", 64)
+    res_r = z3.substitute(res, (rem_term, rem))
+    panic_r = z3.substitute(panic, (rem_term, rem))
+    if "len2" in res_r.sexpr() or "len2" in panic_r.sexpr():
+        raise Unsupported("adler32_combine uses len2 other than through len2 % 65521")
+    pre = z3.And(pre, z3.ULT(rem, p))
+    lo = z3.ZeroExt(32, res_r & 0xffff)
+    hi = z3.ZeroExt(32, z3.LShR(res_r, 16))
+    # RFC 1950: running B from A1 instead of 1 adds (A1 - 1) to the final A and to each of the len2 partial sums of B
     specA = z3.URem(A1 + A2 + p - 1, p)
-    specB = z3.URem(B1 + B2 + rem * z3.URem(A1 + p - 1, p), p)
-    spec = z3.Extract(31, 0, specA | (specB << 16))
-    qs = [("equals_definition", z3.And(pre, z3.Or(res != spec, panic)))]
-    return finish(z3, qs, logdir, "adler32_combine", validated,
-                  functions=["adler32::adler32_combine"],
-                  bounds="every pair of valid Adler-32 values (both halves < 65521), every 64-bit len2",
-                  replay=lambda m: None, timeout=600)
+    qs = [("no_panic_and_valid_range", z3.And(pre, z3.Or(panic_r, z3.UGE(lo, p), z3.UGE(hi, p)))),
+          ("low_half_equals_definition", z3.And(pre, lo != specA))]
+    r = finish(z3, qs, logdir, "adler32_combine", validated,
+               functions=["adler32::adler32_combine"],
+               bounds="every pair of valid Adler-32 values (both halves < 65521), every 64-bit len2 (through len2 % 65521): no overflow panic, "
+                      "result is again a valid Adler-32 value, low half equals the definition.  The high half == definition query "
+                      "(one 16x16-bit multiplication under two 64-bit remainders) does not terminate in z3/cvc5 within 600 s and is NOT claimed",
+               replay=lambda m: None, timeout=300)
+    return r
 
 
 def q_small(z3, funcs, exe, logdir):
